@@ -445,25 +445,41 @@ def playback(unit, f, pid):
 
 
 def native_replay(unit, h, test_src):
-    """Run the generated test natively against the real crate code (cargo kani playback)."""
+    """Run the generated test natively against the real crate code (cargo kani playback): the harness
+    module includes /verif/work/k/playback/<unit>_<module>.rs under cfg(verif_playback)."""
     pb_dir = os.path.join(KWORK, 'playback')
     os.makedirs(pb_dir, exist_ok=True)
-    pfile = os.path.join(pb_dir, unit['name'] + '.rs')
+    # which injected module defines the harness?
+    target_mod = None
+    for (rel, modfile) in unit.get('inject', []):
+        text = open(os.path.join(unit['_dir'], modfile), encoding='utf-8').read()
+        stem = os.path.splitext(modfile)[0]
+        open(os.path.join(pb_dir, '%s_%s.rs' % (unit['name'], stem)), 'w').write('')
+        if re.search(r'\b' + re.escape(h) + r'\b', text):
+            target_mod = stem
+    if target_mod is None:
+        target_mod = os.path.splitext(unit['inject'][0][1])[0]
+    pfile = os.path.join(pb_dir, '%s_%s.rs' % (unit['name'], target_mod))
     open(pfile, 'w').write(test_src + '\n')
     m = re.search(r'fn (kani_concrete_playback_\w+)', test_src)
     tname = m.group(1) if m else 'kani_concrete_playback'
     env = kani_env(unit)
     env['RUSTFLAGS'] += ' --cfg verif_playback'
-    cmd = ['cargo', 'kani', 'playback', '-Z', 'concrete-playback', '-p', unit['crate'],
-           '--target-dir', os.path.join(KWORK, 'target', unit['name'] + '-playback'), '--', tname]
+    env['CARGO_TARGET_DIR'] = os.path.join(KWORK, 'target', unit['name'] + '-playback')
+    cmd = ['cargo', 'kani', 'playback', '-Z', 'concrete-playback', '-p', unit['crate'], '--', tname]
     try:
-        p = subprocess.run(cmd, cwd=WS, env=env, capture_output=True, text=True, timeout=1800)
-        out = (p.stdout + p.stderr)[-3000:]
-        failed = bool(re.search(r'test result: FAILED|panicked at', p.stdout + p.stderr))
-        ran = bool(re.search(r'running \d+ test', p.stdout + p.stderr))
-        return {'cmd': ' '.join(cmd), 'reproduced_natively': failed and ran, 'ran': ran, 'output_tail': out}
+        p = subprocess.run(cmd, cwd=WS, env=env, capture_output=True, text=True, timeout=2400)
+        allout = p.stdout + p.stderr
+        failed = bool(re.search(r'test result: FAILED|panicked at', allout))
+        ran = bool(re.search(r'running [1-9]\d* test', allout))
+        res = {'cmd': 'RUSTFLAGS="%s" CARGO_TARGET_DIR=%s %s' % (env['RUSTFLAGS'], env['CARGO_TARGET_DIR'], ' '.join(cmd)),
+               'reproduced_natively': failed and ran, 'ran': ran, 'output_tail': allout[-2500:]}
     except Exception as e:
-        return {'cmd': ' '.join(cmd), 'reproduced_natively': False, 'error': repr(e)}
+        res = {'cmd': ' '.join(cmd), 'reproduced_natively': False, 'error': repr(e)}
+    for (rel, modfile) in unit.get('inject', []):
+        stem = os.path.splitext(modfile)[0]
+        open(os.path.join(pb_dir, '%s_%s.rs' % (unit['name'], stem)), 'w').write('')
+    return res
 
 
 def replay(path):
